@@ -221,6 +221,9 @@ def dictValues {κ β} (d : List (κ × β)) : List β := d.map (fun p => p.2)
 /-- `a.isdisjoint(b)` on sets -/
 def setDisjoint {α} [DecidableEq α] (a b : List α) : Bool := a.all (fun x => !b.contains x)
 
+/-- `x % 1.0` on a float: `x - floor(x)`, in `[0, 1)` (python / numpy `%` takes the sign of the divisor) -/
+def fmod1 (x : Rat) : Rat := x - (Rat.floor x : Rat)
+
 end Mofun.Generated.Py
 
 namespace Mofun.Generated.Code
@@ -801,6 +804,25 @@ def replaceMergeDelete (ignore_atoms_should_not_be_deleted_twice : Bool) (to_del
     pure to_delete
   else
     none  -- raise
+
+/-- translated from `translate` in mofun/atoms.py class Atoms for ONE atom: the new value of its row of `self.positions` (`self.positions += delta`, guarded by `len(self) > 0`) -/
+def atomsTranslate (positions : Vec3) (self_len : Nat) (delta : Vec3) : Vec3 :=
+  if (true && (decide (self_len > 0))) then
+    let positions' : Vec3 := (⟨(positions.x + delta.x), (positions.y + delta.y), (positions.z + delta.z)⟩ : Vec3)
+    (positions')
+  else
+    (positions)
+
+/-- translated from `replace_pattern_in_structure` in mofun/mofun.py (FRAGMENT on positions: the two pre-translations `replace_pattern.translate(-search_pattern.positions[0])`, `search_pattern.translate(-search_pattern.positions[0])` IN THE ORDER OF THE SOURCE; result = (a replace-pattern atom, the first search-pattern atom, any other search-pattern atom) afterwards) -/
+def replacePretranslate (search_pattern_positions_0 : Vec3) (search_pattern_positions_1 : Vec3) (search_pattern_len : Nat) (replace_pattern_positions_0 : Vec3) (replace_pattern_len : Nat) : Vec3 × Vec3 × Vec3 :=
+  let replace_pattern_positions_0' : Vec3 := (atomsTranslate replace_pattern_positions_0 replace_pattern_len (⟨(-search_pattern_positions_0.x), (-search_pattern_positions_0.y), (-search_pattern_positions_0.z)⟩ : Vec3))
+  let search_pattern_positions_0' : Vec3 := (atomsTranslate search_pattern_positions_0 search_pattern_len (⟨(-search_pattern_positions_0.x), (-search_pattern_positions_0.y), (-search_pattern_positions_0.z)⟩ : Vec3))
+  let search_pattern_positions_1' : Vec3 := (atomsTranslate search_pattern_positions_1 search_pattern_len (⟨(-search_pattern_positions_0.x), (-search_pattern_positions_0.y), (-search_pattern_positions_0.z)⟩ : Vec3))
+  (replace_pattern_positions_0', search_pattern_positions_0', search_pattern_positions_1')
+
+/-- translated from `replace_pattern_in_structure` in mofun/mofun.py (FRAGMENT for ONE atom: the wrap into the unit cell, `(new_atoms.positions.dot(np.linalg.inv(cell)) % 1.0).dot(cell)`; the inverse is expanded as adjugate / determinant) -/
+def replaceWrap (pos : Vec3) (cell : Mat3) : Vec3 :=
+  (⟨((((Py.fmod1 (((pos.x * (((cell.b.y * cell.c.z) - (cell.b.z * cell.c.y)) / (((cell.a.x * ((cell.b.y * cell.c.z) - (cell.b.z * cell.c.y))) - (cell.a.y * ((cell.b.x * cell.c.z) - (cell.b.z * cell.c.x)))) + (cell.a.z * ((cell.b.x * cell.c.y) - (cell.b.y * cell.c.x)))))) + (pos.y * ((-((cell.b.x * cell.c.z) - (cell.b.z * cell.c.x))) / (((cell.a.x * ((cell.b.y * cell.c.z) - (cell.b.z * cell.c.y))) - (cell.a.y * ((cell.b.x * cell.c.z) - (cell.b.z * cell.c.x)))) + (cell.a.z * ((cell.b.x * cell.c.y) - (cell.b.y * cell.c.x))))))) + (pos.z * (((cell.b.x * cell.c.y) - (cell.b.y * cell.c.x)) / (((cell.a.x * ((cell.b.y * cell.c.z) - (cell.b.z * cell.c.y))) - (cell.a.y * ((cell.b.x * cell.c.z) - (cell.b.z * cell.c.x)))) + (cell.a.z * ((cell.b.x * cell.c.y) - (cell.b.y * cell.c.x)))))))) * cell.a.x) + ((Py.fmod1 (((pos.x * ((-((cell.a.y * cell.c.z) - (cell.a.z * cell.c.y))) / (((cell.a.x * ((cell.b.y * cell.c.z) - (cell.b.z * cell.c.y))) - (cell.a.y * ((cell.b.x * cell.c.z) - (cell.b.z * cell.c.x)))) + (cell.a.z * ((cell.b.x * cell.c.y) - (cell.b.y * cell.c.x)))))) + (pos.y * (((cell.a.x * cell.c.z) - (cell.a.z * cell.c.x)) / (((cell.a.x * ((cell.b.y * cell.c.z) - (cell.b.z * cell.c.y))) - (cell.a.y * ((cell.b.x * cell.c.z) - (cell.b.z * cell.c.x)))) + (cell.a.z * ((cell.b.x * cell.c.y) - (cell.b.y * cell.c.x))))))) + (pos.z * ((-((cell.a.x * cell.c.y) - (cell.a.y * cell.c.x))) / (((cell.a.x * ((cell.b.y * cell.c.z) - (cell.b.z * cell.c.y))) - (cell.a.y * ((cell.b.x * cell.c.z) - (cell.b.z * cell.c.x)))) + (cell.a.z * ((cell.b.x * cell.c.y) - (cell.b.y * cell.c.x)))))))) * cell.b.x)) + ((Py.fmod1 (((pos.x * (((cell.a.y * cell.b.z) - (cell.a.z * cell.b.y)) / (((cell.a.x * ((cell.b.y * cell.c.z) - (cell.b.z * cell.c.y))) - (cell.a.y * ((cell.b.x * cell.c.z) - (cell.b.z * cell.c.x)))) + (cell.a.z * ((cell.b.x * cell.c.y) - (cell.b.y * cell.c.x)))))) + (pos.y * ((-((cell.a.x * cell.b.z) - (cell.a.z * cell.b.x))) / (((cell.a.x * ((cell.b.y * cell.c.z) - (cell.b.z * cell.c.y))) - (cell.a.y * ((cell.b.x * cell.c.z) - (cell.b.z * cell.c.x)))) + (cell.a.z * ((cell.b.x * cell.c.y) - (cell.b.y * cell.c.x))))))) + (pos.z * (((cell.a.x * cell.b.y) - (cell.a.y * cell.b.x)) / (((cell.a.x * ((cell.b.y * cell.c.z) - (cell.b.z * cell.c.y))) - (cell.a.y * ((cell.b.x * cell.c.z) - (cell.b.z * cell.c.x)))) + (cell.a.z * ((cell.b.x * cell.c.y) - (cell.b.y * cell.c.x)))))))) * cell.c.x)), ((((Py.fmod1 (((pos.x * (((cell.b.y * cell.c.z) - (cell.b.z * cell.c.y)) / (((cell.a.x * ((cell.b.y * cell.c.z) - (cell.b.z * cell.c.y))) - (cell.a.y * ((cell.b.x * cell.c.z) - (cell.b.z * cell.c.x)))) + (cell.a.z * ((cell.b.x * cell.c.y) - (cell.b.y * cell.c.x)))))) + (pos.y * ((-((cell.b.x * cell.c.z) - (cell.b.z * cell.c.x))) / (((cell.a.x * ((cell.b.y * cell.c.z) - (cell.b.z * cell.c.y))) - (cell.a.y * ((cell.b.x * cell.c.z) - (cell.b.z * cell.c.x)))) + (cell.a.z * ((cell.b.x * cell.c.y) - (cell.b.y * cell.c.x))))))) + (pos.z * (((cell.b.x * cell.c.y) - (cell.b.y * cell.c.x)) / (((cell.a.x * ((cell.b.y * cell.c.z) - (cell.b.z * cell.c.y))) - (cell.a.y * ((cell.b.x * cell.c.z) - (cell.b.z * cell.c.x)))) + (cell.a.z * ((cell.b.x * cell.c.y) - (cell.b.y * cell.c.x)))))))) * cell.a.y) + ((Py.fmod1 (((pos.x * ((-((cell.a.y * cell.c.z) - (cell.a.z * cell.c.y))) / (((cell.a.x * ((cell.b.y * cell.c.z) - (cell.b.z * cell.c.y))) - (cell.a.y * ((cell.b.x * cell.c.z) - (cell.b.z * cell.c.x)))) + (cell.a.z * ((cell.b.x * cell.c.y) - (cell.b.y * cell.c.x)))))) + (pos.y * (((cell.a.x * cell.c.z) - (cell.a.z * cell.c.x)) / (((cell.a.x * ((cell.b.y * cell.c.z) - (cell.b.z * cell.c.y))) - (cell.a.y * ((cell.b.x * cell.c.z) - (cell.b.z * cell.c.x)))) + (cell.a.z * ((cell.b.x * cell.c.y) - (cell.b.y * cell.c.x))))))) + (pos.z * ((-((cell.a.x * cell.c.y) - (cell.a.y * cell.c.x))) / (((cell.a.x * ((cell.b.y * cell.c.z) - (cell.b.z * cell.c.y))) - (cell.a.y * ((cell.b.x * cell.c.z) - (cell.b.z * cell.c.x)))) + (cell.a.z * ((cell.b.x * cell.c.y) - (cell.b.y * cell.c.x)))))))) * cell.b.y)) + ((Py.fmod1 (((pos.x * (((cell.a.y * cell.b.z) - (cell.a.z * cell.b.y)) / (((cell.a.x * ((cell.b.y * cell.c.z) - (cell.b.z * cell.c.y))) - (cell.a.y * ((cell.b.x * cell.c.z) - (cell.b.z * cell.c.x)))) + (cell.a.z * ((cell.b.x * cell.c.y) - (cell.b.y * cell.c.x)))))) + (pos.y * ((-((cell.a.x * cell.b.z) - (cell.a.z * cell.b.x))) / (((cell.a.x * ((cell.b.y * cell.c.z) - (cell.b.z * cell.c.y))) - (cell.a.y * ((cell.b.x * cell.c.z) - (cell.b.z * cell.c.x)))) + (cell.a.z * ((cell.b.x * cell.c.y) - (cell.b.y * cell.c.x))))))) + (pos.z * (((cell.a.x * cell.b.y) - (cell.a.y * cell.b.x)) / (((cell.a.x * ((cell.b.y * cell.c.z) - (cell.b.z * cell.c.y))) - (cell.a.y * ((cell.b.x * cell.c.z) - (cell.b.z * cell.c.x)))) + (cell.a.z * ((cell.b.x * cell.c.y) - (cell.b.y * cell.c.x)))))))) * cell.c.y)), ((((Py.fmod1 (((pos.x * (((cell.b.y * cell.c.z) - (cell.b.z * cell.c.y)) / (((cell.a.x * ((cell.b.y * cell.c.z) - (cell.b.z * cell.c.y))) - (cell.a.y * ((cell.b.x * cell.c.z) - (cell.b.z * cell.c.x)))) + (cell.a.z * ((cell.b.x * cell.c.y) - (cell.b.y * cell.c.x)))))) + (pos.y * ((-((cell.b.x * cell.c.z) - (cell.b.z * cell.c.x))) / (((cell.a.x * ((cell.b.y * cell.c.z) - (cell.b.z * cell.c.y))) - (cell.a.y * ((cell.b.x * cell.c.z) - (cell.b.z * cell.c.x)))) + (cell.a.z * ((cell.b.x * cell.c.y) - (cell.b.y * cell.c.x))))))) + (pos.z * (((cell.b.x * cell.c.y) - (cell.b.y * cell.c.x)) / (((cell.a.x * ((cell.b.y * cell.c.z) - (cell.b.z * cell.c.y))) - (cell.a.y * ((cell.b.x * cell.c.z) - (cell.b.z * cell.c.x)))) + (cell.a.z * ((cell.b.x * cell.c.y) - (cell.b.y * cell.c.x)))))))) * cell.a.z) + ((Py.fmod1 (((pos.x * ((-((cell.a.y * cell.c.z) - (cell.a.z * cell.c.y))) / (((cell.a.x * ((cell.b.y * cell.c.z) - (cell.b.z * cell.c.y))) - (cell.a.y * ((cell.b.x * cell.c.z) - (cell.b.z * cell.c.x)))) + (cell.a.z * ((cell.b.x * cell.c.y) - (cell.b.y * cell.c.x)))))) + (pos.y * (((cell.a.x * cell.c.z) - (cell.a.z * cell.c.x)) / (((cell.a.x * ((cell.b.y * cell.c.z) - (cell.b.z * cell.c.y))) - (cell.a.y * ((cell.b.x * cell.c.z) - (cell.b.z * cell.c.x)))) + (cell.a.z * ((cell.b.x * cell.c.y) - (cell.b.y * cell.c.x))))))) + (pos.z * ((-((cell.a.x * cell.c.y) - (cell.a.y * cell.c.x))) / (((cell.a.x * ((cell.b.y * cell.c.z) - (cell.b.z * cell.c.y))) - (cell.a.y * ((cell.b.x * cell.c.z) - (cell.b.z * cell.c.x)))) + (cell.a.z * ((cell.b.x * cell.c.y) - (cell.b.y * cell.c.x)))))))) * cell.b.z)) + ((Py.fmod1 (((pos.x * (((cell.a.y * cell.b.z) - (cell.a.z * cell.b.y)) / (((cell.a.x * ((cell.b.y * cell.c.z) - (cell.b.z * cell.c.y))) - (cell.a.y * ((cell.b.x * cell.c.z) - (cell.b.z * cell.c.x)))) + (cell.a.z * ((cell.b.x * cell.c.y) - (cell.b.y * cell.c.x)))))) + (pos.y * ((-((cell.a.x * cell.b.z) - (cell.a.z * cell.b.x))) / (((cell.a.x * ((cell.b.y * cell.c.z) - (cell.b.z * cell.c.y))) - (cell.a.y * ((cell.b.x * cell.c.z) - (cell.b.z * cell.c.x)))) + (cell.a.z * ((cell.b.x * cell.c.y) - (cell.b.y * cell.c.x))))))) + (pos.z * (((cell.a.x * cell.b.y) - (cell.a.y * cell.b.x)) / (((cell.a.x * ((cell.b.y * cell.c.z) - (cell.b.z * cell.c.y))) - (cell.a.y * ((cell.b.x * cell.c.z) - (cell.b.z * cell.c.x)))) + (cell.a.z * ((cell.b.x * cell.c.y) - (cell.b.y * cell.c.x)))))))) * cell.c.z))⟩ : Vec3)
 
 /-- translated from `replace_pattern_in_structure` in mofun/mofun.py (FRAGMENT: is the replacement empty, i.e. is this a pure deletion) -/
 def replaceEmptyBranch (replace_pattern_len : Nat) : Bool :=
